@@ -221,6 +221,22 @@ def run(ctx) -> None:
             ctx.judged(sig=("standard", addr["form"], addr["native"], bool(seq), "log" in line), nontrivial=True)
             done += 1
             continue
+        if platform == "ios" and rng.random() < 0.06:
+            # lists of service *names* in any order on either side, followed by option tokens
+            proto = rng.choice(["tcp", "udp"])
+            vocab = sorted(grammar.port_vocab(proto, platform, version))
+            def names_list():
+                return rng.choice(["eq", "eq", "neq"]) + " " + " ".join(rng.sample(vocab, rng.randint(2, 4)))
+            sside = " " + names_list() if rng.random() < 0.4 else ""
+            dside = " " + names_list() if rng.random() < 0.8 or not sside else ""
+            tail = rng.choice(["", " log", " ack", " established log"]) if proto == "tcp" else rng.choice(["", " log"])
+            text = f"{rng.choice(['permit', 'deny'])} {proto} any{sside} {rng.choice(['any', 'host 10.0.0.1', 'object-group anycast-dns'])}{dside}{tail}"
+            case = {"text": text, "platform": platform, "version": version, "port_nr": rng.random() < 0.4, "protocol_nr": rng.random() < 0.4}
+            execute(ctx, case)
+            ctx.count("service_name_lists")
+            ctx.judged(sig=("name-lists", proto, bool(sside), bool(dside), tail), nontrivial=True)
+            done += 1
+            continue
         gen = grammar.gen_ace(rng, platform, version)
         _run_generated(ctx, gen, platform, version, rng.random() < 0.4, rng.random() < 0.4)
         done += 1
